@@ -127,6 +127,10 @@ type Hooks struct {
 	AfterRun    func(h *simplefixgo.DefaultHandler, s *session.Session, log *EventLog) // after Session.Run
 	AppMessage  func(step *Step) messages.Message                       // build the message of a "send" step
 	KeepSession func(s *session.Session, h *simplefixgo.DefaultHandler)
+	// OnWire makes the peer reactive: it is called (on the goroutine that
+	// drains Outgoing) for every message the session puts on the wire and
+	// returns messages the peer sends at once in response.
+	OnWire func(o Out) []*InMsg
 }
 
 // NewApp builds a fresh application message (MarketDataRequestReject, 35=Y).
@@ -229,6 +233,7 @@ func runDirect(cfg Cfg, steps []Step, hooks *Hooks, maxHB int, tr *Trace) {
 	r.h.OnStopped(func() bool { r.event("handler:stopped"); return true })
 
 	// drain Outgoing() like a connection would
+	var reactive sync.WaitGroup
 	stopDrain := make(chan struct{})
 	drainDone := make(chan struct{})
 	go func() {
@@ -241,6 +246,14 @@ func runDirect(cfg Cfg, steps []Step, hooks *Hooks, maxHB int, tr *Trace) {
 				r.out = append(r.out, Emitted{Out: Decode(cp), At: r.log.Now()})
 				r.mu.Unlock()
 				r.log.Add(Event{Kind: "wire", Bytes: cp})
+				if hooks.OnWire != nil {
+					for _, m := range hooks.OnWire(Decode(cp)) {
+						b := m.Bytes()
+						r.log.Add(Event{Kind: "inject", Bytes: b})
+						reactive.Add(1)
+						go func() { defer reactive.Done(); r.h.ServeIncoming(b) }()
+					}
+				}
 			case <-stopDrain:
 				return
 			}
@@ -405,4 +418,5 @@ func runDirect(cfg Cfg, steps []Step, hooks *Hooks, maxHB int, tr *Trace) {
 	tr.Teardown = r.snapshot(outMark, evMark, at)
 	close(stopDrain)
 	<-drainDone
+	reactive.Wait()
 }
